@@ -8,12 +8,16 @@ import machine
 from props import c03
 
 ID = "C04"
-LEAN_MODULES = ["QProps.C04", "QProps.C04h", "QProps.C04a"]
+LEAN_MODULES = ["QProps.C04", "QProps.C04h", "QProps.C04a", "QProps.C04d"]
 THEOREMS = [
     "MC.ainv_validate",
     "MC.ainv_trial_of",
     "MC.forces_history",
     "MC.forces_history_grand",
+    "RDict.inv_step",
+    "RDict.forces_never_stale",
+    "RDict.stale_without_copy",
+    "RDict.stale_with_shared_dictionary",
     "MC.forces_stale_when_aliased",
     "MC.energy_history",
     "MC.energy_history_grand",
@@ -47,7 +51,7 @@ RULE = ("scripted histories (as C03) on real Canonical/HamiltonianCanonical/Isob
 ASSUMPTIONS = c03.ASSUMPTIONS + ["calculators follow ASE's get_property/check_state/reset/calculate protocol",
                                  "the energy is a function of positions, numbers and cell (what ASE's compare_atoms watches)"]
 
-STYLES = ["caching", "inplace", "stateless", "peratom", "caching", "inplace"]
+STYLES = ["caching", "inplace", "stateless", "peratom", "lazy", "inplace"]
 
 
 def calc_factory(style):
@@ -76,7 +80,20 @@ def calc_factory(style):
                     raise ValueError("stale per-atom state")
             self.nevals += 1
             p = self.atoms.positions
-            if style == "inplace":
+            if style == "lazy":
+                # energy always; forces only when asked for (`properties`), written in place into one buffer and added to
+                # the CURRENT results dictionary (no system change -> no reset): what ASE's protocol allows a calculator
+                # with expensive forces to do
+                if system_changes:
+                    self.results["energy"] = float((p**2).sum() + self.atoms.cell.array.trace())
+                else:
+                    self.nevals -= 1          # completing the cached results is not a new evaluation of the configuration
+                if "forces" in (properties or []):
+                    if self.fbuf is None or len(self.fbuf) != len(p):
+                        self.fbuf = np.empty((len(p), 3))
+                    self.fbuf[:] = -2 * p
+                    self.results["forces"] = self.fbuf
+            elif style == "inplace":
                 if self.fbuf is None or len(self.fbuf) != len(p):
                     self.fbuf = np.empty((len(p), 3))
                 self.fbuf[:] = -2 * p
@@ -224,6 +241,365 @@ class EnergyHistories(common.Suite):
         return None
 
 
+class EnergyRunBoundaries(EnergyHistories):
+    """histories that span several run() calls with the user editing the atoms (positions, cell) in between: the next
+    run() starts with validate_simulation(), after which the reference energy, the remembered positions and the cached
+    results must be those of the atoms AS THE USER LEFT THEM — and stay right after the first trials of the new run
+    (mostly rejected). Model: `MM.userEdit` + `MC.avalidate` (`mc … !run` events)."""
+
+    name = "energy-run-boundaries"
+
+    def cases(self, rng, tier):
+        k = 0
+        for case in c03.RunBoundaries().cases(rng, tier):
+            if case["ens"] == "grand" and k % 2:
+                continue
+            case["style"] = STYLES[k % len(STYLES)]
+            case["warm"] = False
+            k += 1
+            yield case
+
+    def real(self, case):
+        sim = machine.Sim(case, calc_factory(case["style"]))
+        out = {"lines": [], "outcomes": [], "checks": [], "events": []}
+        ev0 = sim.calc.nevals
+        for k, tr in enumerate(case["trials"]):
+            ev = case["runs"].get(str(k))
+            try:
+                if ev is not None:
+                    n = len(sim.atoms)
+                    shift = np.array([ev["shift"][i % len(ev["shift"])] for i in range(n)], float).reshape(n, 3)
+                    new = sim.atoms.get_positions() + shift
+                    sim.atoms.positions = new
+                    if ev["cell"] is not None:
+                        sim.atoms.set_cell(np.diag(np.array(ev["cell"], float)), scale_atoms=False)
+                    import warnings
+
+                    with warnings.catch_warnings():
+                        warnings.simplefilter("ignore")
+                        sim.mc.validate_simulation()
+                    c = sim.mc.context
+                    n_probe = sim.calc.nevals
+                    rep = sim.atoms.get_potential_energy()
+                    raw = sim.atoms.get_forces(apply_constraint=False)
+                    if case["style"] == "stateless":
+                        sim.calc.nevals = n_probe             # our own probes, not the simulation's evaluations
+                    out["events"].append((len(out["lines"]), [[machine._int(x) for x in p] for p in new], ev["cell"]))
+                    out["lines"].append("U" + sim.snapshot("T")[1:] + f" e={machine._int(rep)} le={machine._int(c.last_potential_energy)} "
+                                        f"ev={sim.calc.nevals - ev0 + 1} br=0 fk={force_sum(raw)}")
+                    out["checks"].append({"event": True, "reported": float(rep), "reference": float(c.last_potential_energy),
+                                          "fresh": float(fresh_energy(sim.atoms)),
+                                          "last_positions_ok": bool(np.array_equal(c.last_positions, sim.atoms.positions)),
+                                          "last_cell_ok": (not hasattr(c, "last_cell")) or bool(np.array_equal(np.asarray(c.last_cell), sim.atoms.cell.array)),
+                                          "devals": 0, "forces_dev": 0.0})
+                    out["outcomes"].append("U")
+                ev_before = sim.calc.nevals
+                o = sim.run_trial(tr)
+                reported = sim.atoms.get_potential_energy()
+                n_probe = sim.calc.nevals
+                forces = sim.atoms.get_forces()
+                raw = sim.atoms.get_forces(apply_constraint=False)
+                if case["style"] == "stateless":
+                    sim.calc.nevals = n_probe
+            except Exception as ex:  # noqa: BLE001
+                import traceback
+
+                out["exception"] = type(ex).__name__
+                out["message"] = str(ex)[:300]
+                out["exception_at"] = k
+                out["trace"] = traceback.format_exc()[-900:]
+                break
+            c = sim.mc.context
+            out["outcomes"].append(o)
+            out["lines"].append(sim.snapshot(o) + f" e={machine._int(reported)} le={machine._int(c.last_potential_energy)} "
+                                f"ev={sim.calc.nevals - ev0 + 1} br=0 fk={force_sum(raw)}")
+            out["checks"].append({
+                "reported": float(reported), "reference": float(c.last_potential_energy), "fresh": float(fresh_energy(sim.atoms)),
+                "last_positions_ok": bool(np.array_equal(c.last_positions, sim.atoms.positions)),
+                "last_cell_ok": (not hasattr(c, "last_cell")) or bool(np.array_equal(np.asarray(c.last_cell), sim.atoms.cell.array)),
+                "devals": sim.calc.nevals - ev_before,
+                "forces_dev": float(np.abs(forces - fresh_forces(sim.atoms)).max()) if len(sim.atoms) else 0.0})
+        self._last_events = out["events"]
+        return out
+
+    def model_lines(self, case):
+        events = getattr(self, "_last_events", [])
+        line = machine.model_line(case)
+        head = line.split(" R ", 1)[0]
+        trials = line.split(" R ", 1)[1].split(" ")
+        # events are recorded by the number of lines before them; count only trial lines to find the trial index
+        evs = {}
+        for off, (i, pos, cell) in enumerate(events):
+            evs[i - off] = (pos, cell)
+        pieces = []
+        for k, t in enumerate(trials):
+            if k in evs:
+                pos, cell = evs[k]
+                ops = [x for p in pos for x in p] + (list(cell) if cell is not None else [])
+                pieces.append(",".join(["!run", "1", "1" if cell is not None else "-", machine.s_ints(ops), "-", "-"]))
+            pieces.append(t)
+        return ["mc " + case["style"] + " 1 " + (head + " R " + " ".join(pieces))[len("mm "):]]
+
+    def oracle(self, case, obs):
+        out = []
+        style = case["style"]
+        if "exception" in obs:
+            k = obs["exception_at"]
+            ts = c03.trial_sig(case, k)
+            if "stale per-atom state" in obs["message"]:
+                out.append((f"calc:per-atom-state-unusable:{case['ens']}", obs["message"]))
+            else:
+                out.append((f"exception:{ts}:{obs['exception']}", f"trial {k}: " + obs["message"] + obs.get("trace", "")[-500:]))
+        kt = -1
+        for ch, o in zip(obs["checks"], obs["outcomes"]):
+            if o != "U":
+                kt += 1
+            where = "after-run-start" if o == "U" else {"T": "accepted", "F": "rejected", "N": "failed"}[o]
+            ts = c03.trial_sig(case, max(kt, 0)) if o != "U" else case["ens"] + ":run-start"
+            if ch["reported"] != ch["fresh"]:
+                out.append((f"energy:reported-stale:{ts}:{where}:{style}", f"reports {ch['reported']}, from scratch {ch['fresh']}"))
+            if ch["reference"] != ch["fresh"]:
+                out.append((f"energy:reference-stale:{ts}:{where}:{style}",
+                            f"{where} (trial {kt}): reference energy {ch['reference']}, from scratch {ch['fresh']}"))
+            if not ch["last_positions_ok"] or not ch["last_cell_ok"]:
+                out.append((f"energy:remembered-geometry:{ts}:{where}", "remembered positions/cell differ from the current ones"))
+            if ch["forces_dev"] != 0.0:
+                out.append((f"results:forces-of-another-configuration:{ts}:{where}:{style}", f"forces off by {ch['forces_dev']}"))
+        return out[:6]
+
+    def compare(self, case, real, model):
+        rl, ml = real.get("lines", []), model["lines"]
+        for k, (r, m) in enumerate(zip(rl, ml)):
+            if r != m:
+                return [f"event/trial {k}: real  {r}", f"event/trial {k}: model {m}"]
+        if "exception" in real:
+            k = len(rl)
+            if k < len(ml) and " br=1" in ml[k]:
+                return []
+            return [f"real code raised {real['exception']} at line {k}: {real['message']}; model: {ml[k:k + 1]}"]
+        if len(rl) != len(ml):
+            return [f"{len(rl)} real lines vs {len(ml)} model lines"]
+        return []
+
+    def classify(self, case, obs):
+        oc = obs.get("outcomes", [])
+        firsts = "".join(oc[i + 1] for i, o in enumerate(oc[:-1]) if o == "U")
+        return f"{case['ens']}:{case['style']}:first-of-new-run={''.join(sorted(set(firsts)))}" if firsts else None
+
+
+class HybridForceHistories(common.Suite):
+    """hybrid tables (plain displacement + REAL hybrid-MC move with the real Verlet integrator, which asks the calculator
+    for forces in the trial configurations) with calculators that hand out in-place buffers, also lazily (forces only on
+    request, added to the current results dictionary): after every trial — in particular after a rejected trajectory —
+    energy AND forces read from the atoms are those of the current configuration. Real trajectories are not
+    integer-valued: oracle only; the ownership rules are the Lean model `QModel/CalcAlias.lean`."""
+
+    name = "hybrid-force-histories"
+
+    def cases(self, rng, tier):
+        n = 60 if tier == "quick" else 1200
+        for i in range(n):
+            nat = rng.randint(2, 5)
+            hist = [[rng.choice(["disp", "hmc", "hmc"]), rng.random() < 0.5] for _ in range(rng.randint(3, 9))]
+            hist[0] = ["disp", True]
+            yield {"style": ["lazy", "inplace", "lazy", "caching"][i % 4], "n": nat,
+                   "pos": [[rng.uniform(0, 6) for _ in range(3)] for _ in range(nat)], "seed": rng.randrange(1, 2**31),
+                   "dt": rng.choice([0.5, 2.0, 5.0]), "steps": rng.choice([1, 3, 6]), "hist": hist,
+                   "reader": rng.choice(["none", "forces", "energy"]), "veto": rng.random() < 0.25}
+
+    def real(self, case):
+        import warnings
+
+        import quansino.mc  # noqa: F401
+        from ase import Atoms
+        from quansino.integrators.displacement import Verlet
+        from quansino.mc.canonical import HamiltonianCanonical
+        from quansino.mc.criteria import BaseCriteria
+        from quansino.moves.displacement import DisplacementMove, HamiltonianDisplacementMove
+        from quansino.operations.displacement import Ball
+
+        class Scripted(BaseCriteria):
+            verdict = True
+
+            def evaluate(self, context):
+                context.atoms.get_potential_energy()
+                return self.verdict
+
+        atoms = Atoms(f"Cu{case['n']}", positions=case["pos"], cell=[9, 9, 9], pbc=True)
+        atoms.calc = calc_factory(case["style"])()
+        with warnings.catch_warnings():
+            warnings.simplefilter("ignore")
+            mc = HamiltonianCanonical(atoms, temperature=300.0, seed=case["seed"], max_cycles=1)
+            crit = {"disp": Scripted(), "hmc": Scripted()}
+            mc.add_move(DisplacementMove(np.arange(case["n"]), Ball(0.3)), criteria=crit["disp"], name="disp")
+            hm = HamiltonianDisplacementMove(operation=Verlet(dt=case["dt"], max_steps=case["steps"]))
+            if case["veto"]:
+                flip = [False]
+
+                def check(*_a, **_k):
+                    flip[0] = not flip[0]
+                    return flip[0]
+
+                hm.check_move = check
+                hm.max_attempts = 2
+            mc.add_move(hm, criteria=crit["hmc"], name="hmc")
+            mc.validate_simulation()
+            out = {"checks": [], "outcomes": []}
+            for name, verdict in case["hist"]:
+                mc.yield_moves = lambda name=name: iter([name])
+                crit[name].verdict = bool(verdict)
+                try:
+                    for _ in mc.step():
+                        pass
+                    if case["reader"] == "forces":
+                        atoms.get_forces()
+                    elif case["reader"] == "energy":
+                        atoms.get_potential_energy()
+                    e = atoms.get_potential_energy()
+                    f = atoms.get_forces()
+                except Exception as ex:  # noqa: BLE001
+                    out["exception"] = type(ex).__name__
+                    out["message"] = str(ex)[:300]
+                    break
+                (_, acc), = mc.move_history
+                out["outcomes"].append({True: "T", False: "F", None: "N"}[acc])
+                out["checks"].append({"move": name, "de": float(abs(e - fresh_energy(atoms))),
+                                      "df": float(np.abs(f - fresh_forces(atoms)).max()),
+                                      "dref": float(abs(mc.context.last_potential_energy - fresh_energy(atoms)))})
+        return out
+
+    def oracle(self, case, obs):
+        out = []
+        if "exception" in obs:
+            out.append((f"hybrid:exception:{obs['exception']}", obs["message"]))
+        for k, (ch, o) in enumerate(zip(obs["checks"], obs["outcomes"])):
+            what = {"T": "accepted", "F": "rejected", "N": "failed"}[o]
+            if ch["df"] > 1e-12:
+                out.append((f"results:forces-of-another-configuration:hybrid:{ch['move']}:{what}:{case['style']}",
+                            f"trial {k} ({ch['move']}, {what}): atoms.get_forces() differs from a from-scratch evaluation by {ch['df']:.3e}"))
+            if ch["de"] > 1e-12 or ch["dref"] > 1e-12:
+                out.append((f"energy:stale:hybrid:{ch['move']}:{what}:{case['style']}",
+                            f"trial {k}: reported energy off by {ch['de']:.3e}, reference off by {ch['dref']:.3e}"))
+        return out[:4]
+
+    def classify(self, case, obs):
+        oc = "".join(sorted(set(obs.get("outcomes", []))))
+        return f"{case['style']}:reader={case['reader']}:{oc}" if "F" in oc else None
+
+
+class ResultsDictOps(common.Suite):
+    """the dictionary-level machine `QModel/ResultsDict.lean` against the real code: random scripts of "the atoms move to
+    configuration k", energy / forces requests, `save_state()` and `revert_state()` on a real `Canonical` object with
+    calculators that are eager or lazy (forces only on request) and hand out fresh arrays or one recycled buffer. Compared:
+    for every forces request whether the returned array is that of the current configuration, and the number of
+    evaluations. Theorems: `RDict.inv_step`, `RDict.forces_never_stale`; witnesses `stale_without_copy`,
+    `stale_with_shared_dictionary`."""
+
+    name = "results-dict-ops"
+
+    def cases(self, rng, tier):
+        n = 150 if tier == "quick" else 4000
+        # directed scripts first: the histories of the two repaired defects and close variants
+        directed = [["m1", "e", "r", "f"], ["e", "s", "m1", "e", "r", "f"], ["s", "f", "m1", "f", "r", "f"],
+                    ["s", "f", "m1", "f", "e", "r", "f", "m2", "f", "r", "f"], ["m2", "e", "s", "f", "m3", "f", "e", "r", "f"],
+                    ["f", "m1", "e", "s", "e", "m0", "f", "r", "f", "f"], ["s", "m1", "f", "r", "f", "m1", "f", "s", "f", "m2", "e", "r", "f"]]
+        for ops in directed:
+            for lazy in (True, False):
+                for inplace in (True, False):
+                    yield {"lazy": lazy, "inplace": inplace, "ops": ops}
+        for i in range(n):
+            ops = []
+            for _ in range(rng.randint(2, 14)):
+                r = rng.random()
+                ops.append(f"m{rng.randrange(4)}" if r < 0.3 else "e" if r < 0.5 else "f" if r < 0.72 else "s" if r < 0.86 else "r")
+            yield {"lazy": i % 2 == 0, "inplace": (i // 2) % 2 == 0, "ops": ops}
+
+    def real(self, case):
+        import warnings
+
+        import quansino.mc  # noqa: F401
+        from ase import Atoms
+        from ase.calculators.calculator import Calculator, all_changes
+        from quansino.mc.canonical import Canonical
+
+        lazy, inplace = case["lazy"], case["inplace"]
+
+        class C(Calculator):
+            implemented_properties = ["energy", "forces"]
+
+            def __init__(self):
+                super().__init__()
+                self.nevals = 0
+                self.fbuf = None
+
+            def calculate(self, atoms=None, properties=None, system_changes=all_changes):
+                super().calculate(atoms, properties, system_changes)
+                p = self.atoms.positions
+                if system_changes:
+                    self.nevals += 1
+                    self.results["energy"] = float((p**2).sum())
+                if (not lazy and system_changes) or "forces" in (properties or []):
+                    if inplace:
+                        if self.fbuf is None:
+                            self.fbuf = np.empty(p.shape)
+                        self.fbuf[:] = -2 * p
+                        self.results["forces"] = self.fbuf
+                    else:
+                        self.results["forces"] = -2 * p
+
+        table = [np.array([[0.0, 0, 0], [2, 0, 0]]) + k * np.array([[0.5, 0.25, 0], [0, 0.5, 1.0]]) for k in range(4)]
+        atoms = Atoms("Cu2", positions=table[0], cell=[9, 9, 9], pbc=True)
+        atoms.calc = C()
+        out = []
+        with warnings.catch_warnings():
+            warnings.simplefilter("ignore")
+            mc = Canonical(atoms, temperature=300.0, seed=1, max_cycles=1)
+            mc.validate_simulation()
+            for op in case["ops"]:
+                if op[0] == "m":
+                    atoms.positions = table[int(op[1:])].copy()
+                elif op == "e":
+                    atoms.get_potential_energy()
+                elif op == "f":
+                    f = atoms.get_forces()
+                    out.append("1" if np.array_equal(f, -2 * atoms.positions) else "0")
+                elif op == "s":
+                    mc.save_state()
+                else:
+                    mc.revert_state()
+        return {"reads": "".join(out) or "-", "evals": atoms.calc.nevals}
+
+    def model_lines(self, case):
+        return [" ".join(["rdict", str(int(case["lazy"])), str(int(case["inplace"])), *case["ops"]])]
+
+    def model_obs(self, case, outs):
+        w = outs[0].split()
+        if w[0] != "ok":
+            return {"bad": outs[0]}
+        return {"reads": w[1], "evals": int(w[2][3:])}
+
+    def compare(self, case, real, model):
+        if "bad" in model or "exception" in real:
+            return [f"real {real.get('exception')} model {model.get('bad')}"]
+        d = []
+        if real["reads"] != model["reads"]:
+            d.append(f"freshness of the forces requests: real {real['reads']} model {model['reads']}")
+        if real["evals"] != model["evals"]:
+            d.append(f"evaluations: real {real['evals']} model {model['evals']}")
+        return d
+
+    def oracle(self, case, obs):
+        if "exception" in obs:
+            return [(f"rdict:exception:{obs['exception']}", obs["message"])]
+        if "0" in obs["reads"]:
+            return [(f"results:forces-of-another-configuration:ops:lazy={int(case['lazy'])}:inplace={int(case['inplace'])}",
+                     f"forces request #{obs['reads'].index('0')} of the script {' '.join(case['ops'])} returned the forces of another configuration")]
+        return []
+
+    def classify(self, case, obs):
+        return f"lazy={int(case['lazy'])}:inplace={int(case['inplace'])}:revert={'r' in case['ops']}:reads={min(obs.get('reads', '-').count('1'), 3)}"
+
+
 class ConstraintEnergyHistories(common.Suite):
     """a constraint that contributes to the potential energy (ASE Hookean): the reported energy and the reference energy
     must both be the FULL potential energy of the current atoms (calculator + constraint), as a from-scratch evaluation
@@ -326,4 +702,5 @@ class CollectiveEnergyHistories(ConstraintEnergyHistories):
 
 
 def suites(tier):
-    return [EnergyHistories(), ConstraintEnergyHistories(), CollectiveEnergyHistories()]
+    return [EnergyHistories(), ConstraintEnergyHistories(), CollectiveEnergyHistories(), EnergyRunBoundaries(),
+            HybridForceHistories(), ResultsDictOps()]
